@@ -13,7 +13,7 @@ RULE = ("well-typed expressions (first- and higher-order, typed/untyped/numbered
         "reference order, containsType / containsOperation = the unions over nodes, type nodes record operator and parameters in order once per distinct type; "
         "non-trivial = at least two operator applications; distinct by (language, canon, switches, expression)")
 ASSUMPTIONS = ["labels (rdfs:label) are switched off here; they are compared in C19", "re-check order fixed to creation order (hook)"]
-TRUSTED = ["harness/graphgen.py (canonical text, rdflib.compare.isomorphic)", "harness/refsub.py (oracle)"]
+TRUSTED = ["harness/graphgen.py (canonical text, harness/iso.py exact isomorphism)", "harness/refsub.py (oracle)"]
 
 
 class NodeRecorder:
